@@ -26,8 +26,11 @@ pub fn coins(rng: &mut Rng, allow_bad: bool) -> String {
         "-".into()
     } else if r < 85 {
         format!("{}:{}", rng.range(1, 5), rng.pick(DENOMS))
-    } else if r < 92 {
+    } else if r < 89 {
         format!("{}:d1,{}:d2", rng.range(1, 3), rng.range(1, 3))
+    } else if r < 92 {
+        // one denomination named twice next to another one (legal: amounts are merged)
+        format!("{}:d2,{}:d1,{}:d2", rng.range(1, 2), rng.range(1, 2), rng.range(1, 2))
     } else if allow_bad {
         match rng.below(4) {
             0 => "0:d1".into(),
@@ -351,6 +354,20 @@ pub fn gen_wasm(rng: &mut Rng, thorough: bool) -> Vec<String> {
     };
     let salts = ctx.salts;
     setup(rng, &mut ops, &mut ctx, salts);
+    if rng.chance(1, 6) {
+        // one execute_multi whose later messages use what an earlier one created: three contracts exist after the setup,
+        // so the fourth classic instance of code 1 is c1_3
+        ops.push("rawhash".into());
+        let tail = match rng.below(3) {
+            0 => "(exec c1_3 ((w 6d7a01 01) (rd 6b)) -)".to_string(),
+            1 => "(exec c1_3 ((rd 6b)) 1:d1) (upd c1_3 u2)".to_string(),
+            _ => "(exec c1_0 ((qinfo c1_3) (qraw c1_3 6b) (qsmart c1_3 ((rd 6b)))) -)".to_string(),
+        };
+        ops.push(format!("multi u1 ((inst 1 ((w 6b 09)) - fresh u1 ~) {})", tail));
+        ctx.insts += 1;
+        observe(&mut ops);
+        ops.push("q-info c1_3".into());
+    }
     let ntx = if thorough { rng.range(3, 9) } else { rng.range(2, 6) };
     let maxd = if thorough { 4 } else { 3 };
     for _ in 0..ntx {
